@@ -191,10 +191,10 @@ def run(ctx):
             fin = [c_ for c_ in w.find_calls(r"Encoder.*::finish$") if [e for (e, v) in ok_edges(w, c_) if v == "Continue"]]
             if auto or not fin:
                 return bad + [("archive-file-ok-despite:stream-finish", "write_to_file streams the archive through an encoder whose final write happens when it is dropped (auto_finish): an error at that point (disk full) is discarded, write_to_file returns Ok and the cleaner deletes the log", sp(w, (auto or w.calls)[0].bb))]
-        wa = one(w, r"Write>::write_all$|Write::write_all$")
+        wa = one(w, r"Write>::write_all$|Write::write_all$") if w.find_calls(r"Write>::write_all$|Write::write_all$") else fin[0]
         sy = one(w, r"fs::File::sync_all$")
         oks = [bb for (bb, j, v, dst) in w.aggregates("result::Result", "Ok") if dst == [0]]
-        for call, nm in ((wa, "write_all"), (sy, "sync_all")):
+        for call, nm in ((wa, "write_all" if wa.nname.endswith("write_all") else "encoder finish"), (sy, "sync_all")):
             es = [e for (e, v) in ok_edges(w, call) if v == "Continue"]
             for o in oks:
                 if not es or not any(w.dominates_edge(e, o) for e in es):
